@@ -753,7 +753,7 @@ def fam_gitarg(sess):
             box['viol'] = True
             what = ('libgit2 is asked about %r (%s) for the entry %r' % (bad[0][1], 'the fully resolved path: a link is judged by its target' if bad[0][2] else 'relative to the current directory, not to the work tree', fs.text.get(bad[0][0]))) if bad else 'rows are not the entries libgit2 does not ignore'
             sess.violated(fam, 'gitarg/' + (('canonical-path' if bad[0][2] else 'relative-path') if bad else 'rows'), what, {}, cli_replay_gitarg(), fam)
-    ex.explore(run, on_path, time_budget=200)
+    ex.explore(run, on_path, time_budget=400)
     if not box.get('viol') and not box.get('bad'):
         sess.discharged('gitarg: is_path_ignored is asked about each entry\'s own path; the rows are the entries it does not ignore', family=fam, queries=box['paths'])
 
